@@ -15,6 +15,7 @@ int main(void)
       initMatrix(&roc); initMatrix(&pr);
       ROC(yt, ys, roc, &auc); PrecisionRecall(yt, ys, pr, &ap);
       pr_matrix("roc", roc); pr_double("auc", auc); pr_matrix("pr", pr); pr_double("ap", ap);
+      /* ROC and PrecisionRecall APPEND the points of the curve to the matrix they are given (an empty matrix is expected) */
       DelMatrix(&roc); DelMatrix(&pr); DelDVector(&yt); DelDVector(&ys);
     }
     else if(!strcmp(op, "area")){
@@ -25,6 +26,10 @@ int main(void)
       initMatrix(&cc); initMatrix(&rm); initMatrix(&bi);
       PLSRegressionStatistics(yt, yp, cc, rm, bi);
       pr_matrix("r2", cc); pr_matrix("rmse", rm); pr_matrix("bias", bi);
+      reuse_mask = 0;
+      { matrix *k1 = dup_matrix(cc), *k2 = dup_matrix(rm), *k3 = dup_matrix(bi); junk_m(cc); junk_m(rm); junk_m(bi);
+        PLSRegressionStatistics(yt, yp, cc, rm, bi); RB(0, same_m(cc, k1) && same_m(rm, k2) && same_m(bi, k3)); DelMatrix(&k1); DelMatrix(&k2); DelMatrix(&k3); }
+      pr_long("reuse_bad", reuse_mask);
       DelMatrix(&cc); DelMatrix(&rm); DelMatrix(&bi);
       /* every table requested on its own (the other two arguments NULL) */
       initMatrix(&cc); PLSRegressionStatistics(yt, yp, cc, NULL, NULL); pr_matrix("r2_alone", cc); DelMatrix(&cc);
